@@ -62,6 +62,7 @@ func checkC05(c *Ctx, r *Report) {
 	dddDigits(c, r, "C05.R3.ddd-digits")
 	separatorCount(c, r, "C05.R1.separator-count")
 	tablesInStep(c, r, "C05.R2.tables-in-step")
+	serialWidth(c, r, "C05.R6.print-width")
 }
 
 // c05R5: numeric limit agreement: the TTL parser accepts exactly the range the 32-bit header field (and its printer) has.
